@@ -88,6 +88,54 @@ KNOWN_TEST_INPUTS = {
 }
 
 
+# witnesses of findings that were fixed in /repo (known/C03.txt "fixed:" lines): ordinary regression cases now
+REGRESSION_DOCS = [
+    ('<my-el><p>x</p></my-el>y', 0, True, 0),
+    ('<slot><p>x</p></slot>y', 0, True, 0),
+    ('<ruby>漢<rt>kan</rt>字<rt>ji</rt></ruby>', 0, True, 0),
+    ('<ul><li>a</li><script>x</script><li>b</li></ul>', 0, True, 0),
+    ('<select><optgroup label=a><option>x</option></optgroup><!-- c --><option>y</option></select>', 0, True, 0),
+    ('a <noscript>b</noscript> c', 0, True, 0),
+    ('<div><span>a</span> <noscript><img src=x></noscript> <span>b</span></div>', 0, True, 0),
+    ('a<template></template> b', 0, True, 0),
+    ('<script>var s = "a  b &amp; {{ .J }}";</script>', 0, True, 1),
+    ('<textarea>  {{ .A }}\n x </textarea>', 0, True, 1),
+    ('<input pattern="a  b">', 0, True, 0),
+    ('<a target=" my frame " href=x>a</a>', 0, True, 0),
+    ('<my-el selected="false">a</my-el>', 0, True, 0),
+    ('<input type=checkbox value="">', 0, True, 0),
+    ('<input type=submit value="">', 0, True, 0),
+    ('<input type=radio value=ON>', 0, True, 0),
+]
+
+
+def regression_cases(ctx):
+    out = []
+    for src, opts, frag, tmpl in REGRESSION_DOCS:
+        for o in sorted(set([opts] + PAIRWISE8)):
+            out.append(mk(src, o, frag, tmpl, origin='regression'))
+    return out
+
+
+# wrong-design switches of the design models: the behaviour of the code before a fix must violate the design invariant
+NEGATIVE_CFGS = [('HtmlMachine', 'HtmlMachine_neg_%s.cfg' % b, 'DesignRefines') for b in
+                 ('Noscript', 'Template', 'Rt', 'Script', 'PUnknown', 'Optgroup')] + [('HtmlAttr', 'HtmlAttr_neg_Amp.cfg', 'PlainOK')]
+
+
+def negative_runs(ctx):
+    """each switch alone: TLC must report the invariant violated (otherwise the design check is vacuous there)"""
+    def one(x):
+        module, cfg, inv = x
+        r = vlib.tlc(ctx, module, cfg, workers=2, heap='2g', timeout=900)
+        if inv not in r['invariant_violations']:
+            raise vlib.Infra('wrong-design configuration %s did not violate %s:\n%s' % (cfg, inv, r['out'][-1500:]))
+        return cfg
+    with ThreadPoolExecutor(max_workers=4) as ex:
+        done = list(ex.map(one, NEGATIVE_CFGS))
+    ctx.coverage['wrong_design_switches_violating'] = len(done)
+    vlib.log('NEG: %d wrong-design configurations violate their invariant' % len(done))
+
+
 # ---------------------------------------------------------------------------------------------
 def render_tokens(toks):
     out = bytearray()
@@ -251,7 +299,7 @@ def repo_test_cases(ctx):
 TEMPLATE_DOCS = [
     '<p>{{ .A }} b</p>', '<p>a {{ .A }}</p> <p>{{.B}}</p>', '<a href="{{ .URL }}" class=" x  y ">t</a>',
     '<div class="a {{ .C }} b" id={{.I}}> x </div>', '<p>a</p>{{ if .X }}<p>b</p>{{ end }}<p>c</p>',
-    '<span> {{ .A }} </span> <span>{{ .B }}</span>', '<pre> {{ .A }}  x</pre>', '<textarea>{{ .A }}</textarea>',
+    '<span> {{ .A }} </span> <span>{{ .B }}</span>', '<pre> {{ .A }}  x</pre>', '<textarea>{{ .A }}</textarea>', '<textarea>  {{ .A }}\n x &lt;b&gt; </textarea>', '<style>a{content:"&amp;  {{ .C }}"}</style>',
     '<script>var a = {{ .J }};</script><p>x</p>', '<title> {{ .T }} </title>', '<ul><li>{{ .A }}</li><li> b </li></ul>',
     '<input value="{{ .V }}" type=text>', '<p>a  {{ .A }}  b</p>', '<b>x</b> {{ .A }} <i>y</i>',
     '<div {{ .Attrs }}>x</div>', '<p title="a &amp; {{ .A }}">x</p>',
@@ -347,6 +395,16 @@ ATTR_RULES = [
     ('<input %s>', 'name', ['', 'n', 'a b']),
     ('<input %s>', 'placeholder', ['', ' a  b ']),
     ('<input type=email %s>', 'multiple', ['', 'multiple']),
+    ('<input %s>', 'pattern', ['a  b', ' [a-z]+ ', 'x']),
+    ('<input type=checkbox %s>', 'value', ['', 'ON', 'On']),
+    ('<input type=radio %s>', 'value', ['', 'ON']),
+    ('<input type=submit %s>', 'value', ['', ' Go ', 'x']),
+    ('<input type=reset %s>', 'value', ['', 'x']),
+    ('<input type=button %s>', 'value', ['', 'x']),
+    ('<a href=x %s>x</a>', 'target', [' my frame ', 'a  b']),
+    ('<button %s>x</button>', 'formtarget', [' my frame ', '_self']),
+    ('<my-el %s>x</my-el>', 'selected', ['', 'false', 'selected']),
+    ('<my-el %s>x</my-el>', 'disabled', ['', 'false']),
     ('<input %s>', 'maxlength', ['10', ' 10 ']),
     ('<input %s>', 'autocomplete', ['on', 'off', 'shipping  postal-code', ' name ']),
     ('<input type=image alt=x %s>', 'formmethod', ['get', 'post']),
@@ -506,10 +564,12 @@ def pinned_cases():
 def run(ctx):
     exe = vlib.build_harness(ctx, 'c03')
     vlib._speccopy(ctx)                                # (scratch copy of spec/ made once, before the threads start)
-    with ThreadPoolExecutor(max_workers=2) as ex:      # the two generators are independent
+    with ThreadPoolExecutor(max_workers=3) as ex:      # the generators and the negative runs are independent
         fa = ex.submit(attr_values, ctx)
+        fn = ex.submit(negative_runs, ctx)
         docs = tree_docs(ctx)
         vals = fa.result()
+        fn.result()
     cases = tree_cases(ctx, docs)
     n_tree = len(cases)
     cases += attr_cases(ctx, vals)
@@ -518,6 +578,7 @@ def run(ctx):
     tests, skipped = repo_test_cases(ctx)
     cases += tests
     cases += template_cases(ctx)
+    cases += regression_cases(ctx)
     cases += pinned_cases()
     lines, side, accepted, rejects = validate(ctx, exe, cases, 'main')
 
@@ -600,10 +661,8 @@ def run(ctx):
              '(8 pairwise-covering sets; all 128 for the test inputs in thorough) and read as fragment (body context) '
              'and as document; a case is (input bytes, options, fragment?, delimiters); non-trivial = the real minifier '
              'changed the bytes.  Generator exclusions (known findings, pinned in known/C03.ndjson): X1 script/template '
-             'after an element whose end tag is dropped, text after </rt>, comment between </optgroup> and <option>; '
-             'X3 </p> directly before a custom element end tag; X4 white space next to noscript or after </template>; '
-             'X5 attribute-less colgroup that is empty or follows a colgroup; X6 attribute-less body starting with '
-             'meta/link/script/style/template/noscript; X7 empty attribute-less script/style; %d repository test inputs '
+             'directly after </optgroup> or after a dropped end tag + comment, template after </colgroup>; X5 attribute-less colgroup that is empty or follows a colgroup; X6 attribute-less body starting with '
+             'meta/link/script/style/template/noscript; X7 empty attribute-less script/style; X10 a kept comment (KeepComments/KeepSpecialComments) directly after a dropped tag; %d repository test inputs '
              'that are not conforming HTML (listed in tools/props/c03.py)' % len(skipped),
         samples=samples,
         exhaustive=True,
